@@ -18,148 +18,6 @@ NOT_APPLICABLE = {
     "C17": "acceptance of text/template + go/format output by the Go type-checker: no executable Gallina model of those can be written here (DESIGN.md §8); generated packages are still built by other properties' correspondences",
 }
 
-PROPS["C25"] = {
-    "runs": [
-        {"cmd": "c25.op", "quick": 6000, "thorough": 100000, "thorough_seeds": 3},
-        {"cmd": "c25.closure", "quick": 3000, "thorough": 40000, "thorough_seeds": 3},
-    ],
-    "nontrivial": lambda c: c["input"].count(" ") >= 6,
-    "rule": "c25.op: random pairs of sorted finite/co-finite sets over universes of 3..16 ints, random reuse buffer; "
-            "c25.closure: random equation systems of 2..7 nodes (union/intersection/complement, DAG and cyclic) built through the public API; "
-            "distinct = distinct input text; non-trivial = at least 6 tokens",
-    "modelled": "util/container/intset.go (Merge, Intersect, Complement, Equals, combine/intersect/subtract), "
-                "util/set/closure.go (Compute, closure, slowClosure) and util/graph/tarjan.go mirrored step by step; "
-                "the interner and buffer reuse are abstracted away (pure values)",
-    "partial": "set algebra: universal theorems. closure: model + correspondence + naive-fixpoint oracle (theorems about closure are in Props/C25.v as listed)",
-    "level_text": "Universal Coq theorems: Merge/Intersect/Complement/Equals of the sorted-list representation denote union/intersection/complement/equality over the infinite universe Z and keep the representation sorted. The closure solver (Tarjan order, union and slow paths) is modelled step by step and compared with util/set on thousands of generated systems per run, each also judged by an independent naive stratified-fixpoint oracle.",
-    "level_note": "Trusted: Coq kernel, extraction (ExtrOcamlBasic), OCaml/Go/Python glue. The model is hand-written; buffer reuse and interning are abstracted (which is exactly how the aliasing defect fixed in 24d11eb surfaced as a correspondence break). Systems with < 2 nodes are outside scope (Tarjan returns early).",
-    "technique": "Coq proof over a Gallina model + extracted-model differential correspondence",
-    "assumptions": ["systems are built through the public API (complements have exactly one operand; >= 2 nodes: Tarjan returns early below that)"],
-}
-
-PROPS["C26"] = {
-    "runs": [
-        {"cmd": "c26.exhaustive", "quick": 3, "thorough": 4},
-        {"cmd": "c26.exhaustive", "quick": 2, "thorough": 1},
-        {"cmd": "c26.random", "quick": 1500, "thorough": 20000, "thorough_seeds": 2},
-    ],
-    "nontrivial": lambda c: c["input"].count("(") >= 3,
-    "soft_kinds": ("c26.tarjan", "c26.longest"),
-    "rule": "c26.exhaustive: every directed graph (no parallel edges) on exactly k vertices (k=2,3 quick; 1,4 thorough = 65536 graphs); "
-            "c26.random: 1..8 (5%: 9..16) vertices, random density, one third DAGs (half of them relabelled), parallel edges and self loops allowed; "
-            "four cases per graph (transpose, closure, tarjan, longest path); distinct = distinct (kind, graph); non-trivial = at least 2 vertices",
-    "modelled": "util/graph/transpose.go, matrix.go (Closure, Graph), tarjan.go, path.go mirrored step by step (recursion by fuel = vertex count + 1)",
-    "partial": "transpose and Matrix.Closure: universal theorems about the model. Tarjan and LongestPath: certifying checkers proved sound for all graphs and all outputs "
-               "(C26_scc_certificate_sound, C26_longest_path_certificate_sound) and evaluated on the implementation's real output for every generated graph; "
-               "a direct proof that the Tarjan/DFS models always pass their certificate is not done",
-    "level_text": "Universal Coq theorems: Transpose reverses every edge with multiplicity; the in-place Warshall loop of Matrix.Closure yields exactly reachability (proved from the loop invariant). "
-                  "For Tarjan and LongestPath, boolean certificates (partition, mutual reachability, reverse topological order, onStack contract; nil iff cyclic, valid path, maximal among all paths) are proved sound for every graph and every output, "
-                  "then evaluated on graph.Tarjan/LongestPath output for all graphs <= 3 vertices (quick) / 4 vertices (thorough) and random larger ones; step-by-step models are compared too.",
-    "level_note": "Trusted: Coq kernel, extraction, glue. Tarjan/LongestPath correctness is per-output (certificate) rather than a once-and-for-all theorem about the algorithm. Graphs with < 2 vertices: Tarjan returns early (the property statement excludes them).",
-    "technique": "Coq proof (Warshall invariant, transpose) + proved-sound certificate checkers run on every implementation output + model correspondence",
-    "assumptions": ["edges name vertices < n (Go would panic otherwise)"],
-}
-
-PROPS["C24"] = {
-    "runs": [{"cmd": "c24.random", "quick": 4000, "thorough": 60000, "thorough_seeds": 2}],
-    "nontrivial": lambda c: True,
-    "rule": "random byte-mode rule sets (1-4 rules over literals, classes, repetition, alternation; one third with bytes >= 0x80) compiled by lex.Compile(scanBytes, no backtracking); "
-            "c24.pack: all 256 rows and the onEoi array of shiftdfa.Pack vs the model; c24.wf: the theorem's hypothesis wf24b evaluated on the same real tables; c24.scan: 12 random byte strings per packed automaton through Scanner.Scan and Tables.Scan; distinct = distinct tables/text sets",
-    "modelled": "shiftdfa.Pack, Scanner.Scan (64-bit rows in N with explicit mod 2^64), lex.Tables.Scan (byte and rune decoding) mirrored; lex.Compile itself is not modelled here (its output tables are the input)",
-    "partial": "",
-    "level_text": "Universal Coq theorem C24_pack_scan_agrees: for every well-formed table set accepted by the model of Pack and every byte string, the packed scanner (64-bit rows, shifts and masks modelled in N with explicit mod 2^64) returns exactly what the model of lex.Tables.Scan returns. The model of Pack is compared with shiftdfa.Pack on all 256 rows + onEoi for thousands of compiled rule sets per run, the well-formedness hypothesis is evaluated on those real tables, and every sampled scan is compared with both implementations.",
-    "level_note": "Trusted: Coq kernel, extraction, glue; hook shiftdfa/verif_hooks.go only exposes the private table.",
-    "technique": "Coq proof over a bit-level Gallina model + extracted-model differential correspondence",
-    "assumptions": ["tables come from lex.Compile (well-formed: sorted symbol map starting at 0, targets within the table)"],
-}
-
-PROPS["C28"] = {
-    "runs": [
-        {"cmd": "c28.exhaustive", "quick": 4, "thorough": 5},
-        {"cmd": "c28.names", "quick": 6000, "thorough": 100000, "thorough_seeds": 2},
-        {"cmd": "c28.grammar", "quick": 150, "thorough": 1500},
-    ],
-    "nontrivial": lambda c: len(c["input"]) > 12,
-    "rule": "c28.exhaustive: every ID-syntax name up to length k over {a,B,z,_,Z,-,0,9} and every quoted body of <= 2 atoms over 17 atoms; c28.names: random IDs, quoted ids (escapes, Latin-1, astral, invalid UTF-8) and raw byte strings; all four styles per name; c28.grammar: grammars declaring two near-colliding terminals/nonterminals through compiler.Compile",
-    "modelled": "util/ident/id.go Produce (UTF-8 range loop, charName, hex fallback, all four styles) step by step; IsValid restricted to ASCII output; the ID bookkeeping of compiler/resolver.go (ids map + error on reuse)",
-    "partial": "the statement 'every admitted name gets a non-empty identifier' is false on the pinned code for `_`-only names (non-UpperCase styles) and `''`: known findings, proved as C28_nonempty_refuted",
-    "level_text": "Universal Coq theorems about the step-by-step model of ident.Produce: for every byte string and each of the four styles the result is ASCII [A-Za-z0-9_] not starting with a digit (valid whenever non-empty); every quoted name and every name with an ASCII letter/digit gives a non-empty identifier; the unrestricted non-emptiness claim is refuted in Coq by `_` and `''` (two known findings); the resolver keeps IDs unique unless it reports an error. The model is compared byte for byte with ident.Produce on exhaustive short names and random long ones (Latin-1, astral, invalid UTF-8), and the collision report is compared through compiler.Compile.",
-    "level_note": "Trusted: Coq kernel, extraction, glue. Names are restricted to the tm ID / quoted_id token syntax for the validity oracle (raw byte strings only feed the correspondence).",
-    "technique": "Coq proof over a Gallina model of Produce + extracted-model differential correspondence",
-    "assumptions": [],
-}
-
-PROPS["C27"] = {
-    "runs": [
-        {"cmd": "c27.exhaustive", "quick": 4, "thorough": 6},
-        {"cmd": "c27.random", "quick": 2500, "thorough": 40000, "thorough_seeds": 2},
-    ],
-    "nontrivial": lambda c: c["input"].count(" ") >= 3,
-    "rule": "c27.exhaustive: all pairs of sequences of length <= k over 3 symbols (k=4: 14 641 pairs quick; k=6: 1.19 M thorough); c27.random: texts of 0..13 (1/6: 15..54) lines, b independent or an edited copy of a (deletions, insertions, replacements, inserted runs of up to 19 fresh lines); per pair: the lcs edit script and the rendered unified diff parsed back into hunks",
-    "modelled": "util/diff/diff.go lcs, trace, middle (with the shared buffer threaded through the recursion), chunk.merge, LineDiff's hunk builder (hunk.add with elision, writeTo) in structured form; strings.Split/Sprintf are replaced by line ids (harness maps them back)",
-    "partial": "minimality is certified per output against the proved LCS bound; a direct proof that Myers' middle-snake search always attains it is not done",
-    "level_text": "Coq theorems: every script accepted by script_ok turns a into b; for trace/lcs with ANY middle-snake oracle the produced script is accepted (so script correctness does not depend on Myers' search); no valid script is cheaper than |a|+|b|-2*LCS (quadratic LCS proved); the faithful model (middle included) is compared chunk for chunk with diff.lcs and hunk for hunk with LineDiff, and each implementation output is checked for validity, minimal cost and hunk application.",
-    "level_note": "Trusted: Coq kernel, extraction, glue (the harness parses LineDiff's text back into hunks). Runs longer than 14 lines are elided by hunk.add by design (known finding).",
-    "technique": "Coq proof (script semantics, oracle-independent trace correctness, LCS lower bound) + per-output certificate + model correspondence",
-    "assumptions": ["lines are compared through interned ids (as LineDiff does)"],
-}
-
-PROPS["C08"] = {
-    "runs": [{"cmd": "c08.random", "quick": 6000, "thorough": 120000, "thorough_seeds": 2}],
-    "nontrivial": lambda c: c["input"].count("(") >= 6,
-    "rule": "random sets of 2..6 lookahead alternatives over up to 5 predicate inputs: decision lists (exclusive by construction, shuffled), corrupted decision lists (flipped polarity, dropped literal, swapped order) and unstructured sets; for accepted sets all 2^n truth assignments are enumerated against the returned rule",
-    "modelled": "lalr/lookahead.go newLookaheadRule (order graph, DFS with depth, pickLookahead, swap-remove bookkeeping) and the generated if/else-if chain of go_parser.go.tmpl that evaluates a LookaheadRule",
-    "partial": "the grouping of alternatives per parser state (ruleAction/addRule/compile) is exercised through the table-level properties, not modelled here",
-    "level_text": "Universal Coq theorem: whenever the model of newLookaheadRule accepts a set, then for EVERY assignment of predicate outcomes under which some alternative's conjunction holds, the generated decision chain returns that alternative (hence accepted sets are mutually exclusive). The model is compared with lalr.newLookaheadRule (rule text and error kind) on thousands of sets; for each accepted set the implementation's own rule is evaluated on all 2^n assignments, and exclusivity and consistent ordering are checked.",
-    "level_note": "Trusted: Coq kernel, extraction, glue; hook lalr/verif_hooks.go (VerifNewLookaheadRule copies the slice and calls newLookaheadRule).",
-    "technique": "Coq proof over a Gallina model of newLookaheadRule + extracted-model differential correspondence + exhaustive assignment enumeration",
-    "assumptions": ["at least two alternatives (the planner only builds rules for conflicts)"],
-}
-
-PROPS["C05"] = {
-    "runs": [{"cmd": "c05.random", "quick": 700, "thorough": 12000, "thorough_seeds": 2}],
-    "nontrivial": lambda c: len(c["input"]) > 60,
-    "rule": "random CFGs (1-5 nonterminals, 1-5 terminals, empty rules, several inputs, no-eoi inputs, conflicting grammars included; one third with random %left/%right/%nonassoc groups) compiled by lalr.Compile; each DefaultEnc is optimized with and without defaultReduce; distinct = distinct (tables, mode)",
-    "modelled": "lalr/optimize.go (Optimize, pickDefault, pack with the stable sort, allocator.place with hash-keyed dedupe, first-fit scan over taken/usedBase, end-of-table fallback) and both table decoders of go_parser.go.tmpl (lalr, gotoState linear/binary, the Optimized branches)",
-    "partial": "the per-table check is exhaustive over all cells (a finite space) and proved to imply the property for that table set; a once-and-for-all proof that the model of Optimize always passes it (the allocator invariants) is not done",
-    "level_text": "For each sampled grammar the property is decided for ALL state x terminal cells and all gotos by a Coq-proved exhaustive check (check_enc / check_enc_dr: same shift/reduce/error; with defaultReduce explicit nonassoc errors stay errors, implicit errors may only become a most frequent reduction, never a shift) evaluated on the implementation's own compressed arrays; the step-by-step model of Optimize is compared with all seven arrays of lalr.Optimize.",
-    "level_note": "Trusted: Coq kernel, extraction, glue. Universal over cells and decoders, sampled over grammars. Tables with LALR(k) rows are out of scope (Optimize rejects them).",
-    "technique": "Coq-proved exhaustive per-table validator + extracted-model differential correspondence",
-    "assumptions": ["tables come from lalr.Compile"],
-}
-
-PROPS["C06"] = {
-    "runs": [{"cmd": "c06.random", "quick": 500, "thorough": 8000, "thorough_seeds": 2}],
-    "nontrivial": lambda c: len(c["input"]) > 80,
-    "rule": "random CFGs with duplicated rule shapes, random Action/Type/Flags per rule (so that rule classes are non-trivial), state markers, several inputs and no-eoi inputs, compiled by lalr.Compile with and without MinimizeDFA; per grammar 8 token strings per input (random derivations, mutated sentences, random strings)",
-    "modelled": "lalr/minimize.go (rule classes, signatures with first-occurrence numbering, Moore refinement until the class count is stable, rebuilding Action/FinalStates/Markers/Goto/FromTo incl. edge sort + compaction) and the parser main loop (Gram/Run.v) on both table sets",
-    "partial": "",
-    "level_text": "Coq theorems (Props/C06.v) about the quotient: when the finite exhaustive check check_min passes for (tables, minimized tables, remapping), runs of the two parsers from every entry state proceed in lock step on EVERY token sequence. check_min is evaluated on the implementation's minimized tables with the model's remapping as certificate; the model of minimize is compared array for array with lalr; runs of both table sets are compared on sampled inputs.",
-    "level_note": "Trusted: Coq kernel, extraction, glue. Inputs with duplicate (nonterminal, eoi) pairs are out of scope (the entry functions would collide; see DESIGN F8). Tables with LALR(k) rows are outside the theorem (compared by runs only).",
-    "technique": "Coq simulation proof from a checked quotient certificate + extracted-model differential correspondence",
-    "assumptions": ["tables come from lalr.Compile"],
-}
-
-PROPS["C03"] = {
-    "runs": [{"cmd": "c03.random", "quick": 500, "thorough": 8000, "thorough_seeds": 2}],
-    "nontrivial": lambda c: len(c["input"]) > 60,
-    "rule": "random CFGs (1-5 nonterminals, 1-5 terminals, empty and mutually recursive nullable rules, several inputs, no-eoi inputs; a quarter with precedence groups / %prec; a sixth with non-zero %expect values), conflicting grammars included; per grammar the full state machine (kernels, reductions, transitions, lookahead sets), the tables, conflict counts and the error decision",
-    "modelled": "lalr/compile.go: computeStates (LR(0) collection incl. final-state synthesis, lr0 flags, addShift), initLalr, buildLA's result (as the least solution of closure/goto propagation), populateTables, ruleAction/resolvePrec, conflict counting, reportConflicts' error decision. Not modelled: the DeRemer-Pennello machinery itself (empties, lookback, SCC unions) - its result is what is compared; .greedy; runtime lookahead rules",
-    "partial": "the reference lookahead sets are the least fixpoint of the LALR(1) propagation constraints computed by a naive iteration; the proof that this least fixpoint equals the inductive LR(1)-validity definition is not done",
-    "level_text": "A reference LALR(1) construction written in Gallina (worklist LR(0) collection over kernels, lookaheads as the least solution of closure/goto propagation, expected Action/Lalr/Goto/FromTo, precedence resolution, conflict counts) is compared with textmapper's states, lookahead sets, tables, SR/RR counts and error decision, state by state and cell by cell; the property oracle judges every (state, terminal) cell of the implementation's tables against the canonical cell.",
-    "level_note": "Trusted: Coq kernel, extraction, glue; hook lalr/verif_hooks.go VerifCompile replays Compile's phases and copies the states. States are identified by their kernel as textmapper does (start and final states apart).",
-    "technique": "executable Gallina reference construction + extracted-model differential correspondence (theorems in Props/C03.v cover the precedence/cell layer)",
-    "assumptions": ["no .greedy markers, no runtime lookahead nonterminals"],
-}
-
-PROPS["C04"] = {
-    "runs": [{"cmd": "c04.random", "quick": 600, "thorough": 10000, "thorough_seeds": 2}],
-    "nontrivial": lambda c: "((0 " in c["input"] or "((1 " in c["input"] or "((2 " in c["input"],
-    "rule": "expression grammars E -> E op E | op E | E op | ( E ) | id | E E with 1-4 operators, random %left/%right/%nonassoc groups (some operators undeclared, some declared twice), %prec markers; every (state, terminal) cell of the tables lalr builds is compared with the cell the precedence model prescribes; distinct = distinct grammars; non-trivial = at least one precedence group",
-    "modelled": "lalr/compile.go resolvePrec (rule precedence = %prec else last terminal, group comparison, associativity), ruleAction, the conflictBuilder ambiguity bookkeeping, the per-cell fold of populateTables (-3 -> -2), on top of the reference LALR(1) automaton of C03",
-    "partial": "behaviour-level observation through generated parsers (tree shapes) is covered by the parser run properties, not here",
-    "level_text": "Universal Coq theorems about the model of the cell fold: a shift against one reduction is decided exactly by the documented comparison (higher group wins; equal: left reduces, right shifts, nonassoc yields an error cell; any undeclared side: unresolved conflict, shift kept); unresolved reduce/reduce keeps the earlier rule; once unresolved a cell's action is frozen. The model's cells are compared with every cell of lalr's tables for expression grammars with random precedence declarations.",
-    "level_note": "Trusted: Coq kernel, extraction, glue; hook VerifCompile. Uses the reference automaton of C03 for the lookahead sets.",
-    "technique": "Coq proof over a Gallina model of resolvePrec/ruleAction + extracted-model differential correspondence on all table cells",
-    "assumptions": ["no runtime lookahead nonterminals in the conflicting cells"],
-}
+import glob as _glob, os as _os
+for _f in sorted(_glob.glob(_os.path.join(_os.path.dirname(_os.path.abspath(__file__)), "propsd", "C*.py"))):
+    exec(compile(open(_f).read(), _f, "exec"))
